@@ -2,8 +2,8 @@ package c17
 
 // Group "wallet": account refresh || ValidatingAccountsForEpoch on the real wallet account manager,
 // over a real (filesystem store, non-deterministic) wallet with one account created in a temporary
-// directory.  Refresh re-reads the store and unlocks the account with the real key store decryption,
-// so the number of repetitions of this group is kept small.
+// directory.  Refresh re-reads the store and unlocks the account with the real key store decryption (the
+// key store is created with a reduced key derivation cost).
 
 import (
 	"context"
@@ -16,6 +16,7 @@ import (
 	nullmetrics "github.com/attestantio/vouch/services/metrics/null"
 	standardvalidators "github.com/attestantio/vouch/services/validatorsmanager/standard"
 	"github.com/attestantio/vouch/testutil"
+	"github.com/attestantio/vouch/util"
 	e2types "github.com/wealdtech/go-eth2-types/v2"
 	keystorev4 "github.com/wealdtech/go-eth2-wallet-encryptor-keystorev4"
 	nd "github.com/wealdtech/go-eth2-wallet-nd/v2"
@@ -39,7 +40,9 @@ func c17NewWallet(ctx context.Context) c17Group {
 		panic("c17 harness: " + err.Error())
 	}
 	store := filesystem.New(filesystem.WithLocation(dir))
-	w, err := nd.CreateWallet(ctx, "Verif", store, keystorev4.New())
+	// key derivation cost 2^10 instead of 2^18: the same decryption code on every refresh (the parameters are
+	// read from the key store), cheap enough for the usual number of repetitions
+	w, err := nd.CreateWallet(ctx, "Verif", store, keystorev4.New(keystorev4.WithCost(c17T, 10)))
 	if err != nil {
 		panic("c17 harness: wallet: " + err.Error())
 	}
@@ -99,6 +102,15 @@ func (w *c17Wallet) Call(ctx context.Context, _ int, op c17Op) int {
 		byIndex, err := w.s.ValidatingAccountsForEpochByIndex(ctx, 3, []phase0.ValidatorIndex{1})
 		if err != nil || len(byIndex) != len(accounts) {
 			return -2
+		}
+		// the other readers of the account map: sync committee accounts, look-up by public key (AuctionBlock)
+		if sync, err := w.s.SyncCommitteeAccountsForEpoch(ctx, 3); err != nil || len(sync) != len(accounts) {
+			return -3
+		}
+		for _, account := range accounts {
+			if _, err := w.s.AccountByPublicKey(ctx, util.ValidatorPubkey(account)); err != nil {
+				return -4
+			}
 		}
 		return len(accounts)
 	}
